@@ -5,6 +5,7 @@
      pychar <value> <width> <pad>                -> "T ..." | OverflowError
      ucharb <fixed> <w> <s> <value> <width> <pad> -> same, byte-level model (UTF-8 encode/decode, chars[256])
      utf8enc <v>                                 -> bytes of the C encoder branches | utf8ref <cp> -> RFC 3629 bytes
+     padconsts                                   -> ENC2_LIMIT,ENC3_LIMIT,LATIN1_MAX,PAD_LIMIT,CHARS_SIZE,SURR_LO,SURR_HI
      utf8dec <bytes>                             -> "T cps" | UnicodeDecodeError
      parse <b> <codes>                           -> value
      tables                                      -> the three tables *)
@@ -28,6 +29,7 @@ let handle = function
       string_of_cres (uchar_to_unicode (bool_of_string fx) (z w) (bool_of_string s) (z v) (z width) (z pad))
   | ["ucharb"; fx; w; s; v; width; pad] ->
       string_of_cres (uchar_to_unicode_b (bool_of_string fx) (z w) (bool_of_string s) (z v) (z width) (z pad))
+  | ["padconsts"] -> string_of_zlist padded_consts
   | ["utf8enc"; v] -> string_of_zlist (utf8_enc_c (z v))
   | ["utf8ref"; v] -> string_of_zlist (utf8_ref (z v))
   | ["utf8dec"; l] -> (match utf8_decode (if l = "-" then [] else zlist_of_string l) with
